@@ -36,6 +36,13 @@ def children(v):
             out.append((("ipos",), VInt(None, v.pos)))
             if isinstance(v.items, Lin):
                 out.append((("ilen",), VInt(None, v.items)))
+        if isinstance(v.src, VIter) or (isinstance(v.src, VAdt) and v.kind in ("take", "enumerate", "copied", "map", "filter", "filter_map", "flatten")):
+            out.append((("isrc",), v.src))
+        elif v.kind == "zip2":
+            out.append((("isrc", 0), v.src[0]))
+            out.append((("isrc", 1), v.src[1]))
+        elif v.kind in ("slice", "chunks") and isinstance(v.src, VSlice):
+            out.append((("isl",), v.src))
     return out
 
 
@@ -72,6 +79,14 @@ def with_child(v, key, nv):
         es = list(v.elems)
         es[key[1]] = nv
         return VArr(v.n, tuple(es), v.name, v.src)
+    if isinstance(v, VIter) and k == "isrc":
+        if len(key) == 1:
+            return VIter(v.kind, v.items, v.pos, nv, v.extra)
+        src = list(v.src)
+        src[key[1]] = nv
+        return VIter(v.kind, v.items, v.pos, tuple(src), v.extra)
+    if isinstance(v, VIter) and k == "isl":
+        return VIter(v.kind, v.items, v.pos, nv, v.extra)
     if isinstance(v, VIter) and k == "ipos":
         return VIter(v.kind, v.items, nv.lin, v.src, v.extra)
     if isinstance(v, VIter) and k == "ilen":
@@ -268,12 +283,43 @@ class MemMixin:
         cell = frame.cells[place["l"]]
         path = ()
         cur_variant = 0
-        for e in place["p"]:
+        cur_slice = None
+        for pi, e in enumerate(place["p"]):
+            if cur_slice is not None:
+                # element of a slice reference: (*s)[i] is element start+i of the underlying buffer
+                sl = cur_slice
+                cur_slice = None
+                if "idx" in e or "cidx" in e:
+                    if "idx" in e:
+                        iv = self.load(st, frame.cells[e["idx"]], ())
+                        il = iv.lin if isinstance(iv, VInt) else Lin.sym(self.fresh("ix"))
+                    else:
+                        if e["from_end"]:
+                            raise Abort("from_end index")
+                        il = Lin.const(e["cidx"])
+                    pos = sl.start + il
+                    b = sl.base
+                    if isinstance(b, tuple) and b and b[0] == "loc":
+                        cell, path = b[1], b[2] + ((("e", pos.c),) if pos.is_const() else (("ei", pos),))
+                    elif isinstance(st.cells.get(b), VVec):
+                        cell, path = b, ((("e", pos.c),) if pos.is_const() else (("ei", pos),))
+                    else:
+                        ncell = ("elem", b, pos.key())
+                        if ncell not in st.cells:
+                            st.cells[ncell] = self.named_int(self.u8_ty(), "byte(%r@%r)" % (b, pos), bits_sym=True) if sl.elem in (None, self.u8_ty()) \
+                                else VUnknown(sl.elem, "elem(%r@%r)" % (b, pos))
+                        cell, path = ncell, ()
+                    cur_variant = 0
+                    continue
+                raise Abort("projection %r on a slice" % (e,))
             if e == "deref":
                 v = self.load(st, cell, path)
                 if isinstance(v, VRef):
                     cell, path = v.cell, v.path
                 elif isinstance(v, VSlice):
+                    if pi + 1 < len(place["p"]):
+                        cur_slice = v
+                        continue
                     # deref of a slice reference: stay on the slice value (handled by callers)
                     return ("slice", v, cell, path)
                 elif isinstance(v, VUnknown):
